@@ -1,0 +1,8 @@
+//go:build !verif
+
+package cli
+
+import "github.com/roddhjav/apparmor.d/pkg/paths"
+
+// verifTap is a no-op unless built with the verif tag.
+func verifTap(stage string, file *paths.Path, text string) {}
